@@ -47,7 +47,7 @@ K_DIR = 1e4
 # sequences (step kind 'geo') of every method and for the default configuration of the real-step methods.
 # Worst ratios over 2 x 8 seeds: central 0.14, complex 0.16, multicomplex (order 2) 0.039, forward 337, backward 7e3
 # (one-sided rules with exact-step rounding are noisy).
-C_X = {'central': 10.0, 'complex': 10.0, 'multicomplex': 10.0, 'forward': 1e4, 'backward': 1e5}
+C_X = {'central': 2.0, 'complex': 10.0, 'multicomplex': 10.0, 'forward': 1e4, 'backward': 1e5}
 ASSUME_KNOWN = bool(os.environ.get('NVERIF_ASSUME_KNOWN'))     # development aid only, never set by ./check
 OVERFLOW = 1e150
 METHODS = ['central', 'forward', 'backward', 'complex', 'multicomplex']
